@@ -266,6 +266,15 @@ def r8(ctx):
            "the application's close() arrives while the loop sleeps out the reconnect interval, and after the sleep a new connection is attempted anyway "
            f"({[x for x in [e.name for e in bad.effects][[e.name for e in bad.effects].index('--other thread: app.close()') + 1:] if x in ('WebSocket()', 'appsock.connect', 'on_reconnect', 'on_open', 'on_close')]})",
            loc, {"path": path_text(bad, 12)} if bad else None)
+    # the same moment under an external dispatcher: its timer calls setSock(reconnecting=True) after close() has already
+    # cleared keep_running -- no new connection may be made, and the run is finished off (one on_close)
+    from .c13 import setsock_paths
+    Is, outs_s = setsock_paths(ctx, True, True, app_fields=lambda run: dict(sock=NONE), keep_running=FALSE)
+    loc_s = ctx.index.loc(ctx.index.func(f"{RF}.setSock").node)
+    bad_s = [o for o in outs_s if any(e.name in ("WebSocket()", "appsock.connect") for e in o.effects)]
+    ctx.ob(f"{RF}.setSock:reconnect-timer-after-close()", not bad_s and bool(outs_s), f"{len(outs_s)} paths: no connection attempt once close() has been called" if not bad_s else
+           f"setSock(reconnecting=True) called by the reconnect timer after the application's close() (keep_running is False) still builds and connects a new WebSocket: "
+           f"{[e.name for e in bad_s[0].effects if not e.name.startswith('store:')][:8]}", loc_s, {"path": path_text(bad_s[0])} if bad_s else None)
 
 
 @rule("R-C15-9", min_instances=3, title="external dispatcher: the callbacks it is given (read, check) turn every abnormal loss into handleDisconnect themselves -- nothing escapes into the external loop, where no library frame could catch it")
@@ -319,4 +328,3 @@ def r_sib_r_c15_10(ctx):
 def r_sib_r_c15_11(ctx):
     from .c05 import r3 as close_status_table
     close_status_table(ctx)
-
